@@ -1,11 +1,13 @@
 #!/bin/sh
-# tools/confirm_seed.sh <Cnn[_suffix]> <seeded-dir> <ctest-regex>: lead's confirmation of a seeded change:
-# existing tests on the changed build tree, demo on changed and on unchanged sources.
-id="$1"; sd="$2"; rx="$3"
+# tools/confirm_seed.sh <name> <seeded-dir> <ctest-regex> [unchanged-build-dir]: lead's confirmation of a
+# seeded change: existing tests on the changed build tree /tmp/mut_<name>_build, the demo on the changed
+# sources (/tmp/mut_<name>) and on the unchanged sources (/repo; build dir default /verif/build/rel/celeritas,
+# use /repo/_build for demos that link the test-harness libraries).
+id="$1"; sd="$2"; rx="$3"; UB="${4:-/verif/build/rel/celeritas}"
 WTd=/tmp/mut_$id; B=/tmp/mut_${id}_build
 echo "== existing tests on changed tree ($rx)"
 (cd $B && ctest -R "$rx" -j4 --timeout 900 2>&1 | grep -E "tests passed|tests failed|Failed|Timeout" | head -8)
 echo "== demo on changed"
-(cd $sd/demo && DEMO_OUT=$(mktemp -d /tmp/cs_XXXX) WT=$WTd BUILD=$B sh ./run.sh > /tmp/cs_${id}_mut.log 2>&1; echo "exit=$?"; tail -2 /tmp/cs_${id}_mut.log | cut -c1-300)
+(cd $sd/demo && WT=$WTd BUILD=$B sh ./run.sh > /tmp/cs_${id}_mut.log 2>&1; echo "exit=$?"; tail -2 /tmp/cs_${id}_mut.log | cut -c1-300)
 echo "== demo on unchanged"
-(cd $sd/demo && DEMO_OUT=$(mktemp -d /tmp/cs_XXXX) WT=/repo BUILD=/verif/build/rel/celeritas sh ./run.sh > /tmp/cs_${id}_base.log 2>&1; echo "exit=$?"; tail -2 /tmp/cs_${id}_base.log | cut -c1-300)
+(cd $sd/demo && WT=/repo BUILD=$UB sh ./run.sh > /tmp/cs_${id}_base.log 2>&1; echo "exit=$?"; tail -2 /tmp/cs_${id}_base.log | cut -c1-300)
